@@ -64,7 +64,7 @@ Definition exit_cm (c : cm) (exc : option exn) (s : mstate) : exit_action * msta
             | SOk g' => (XReturn (try_exit_swallows exc), mk_mstate g' (latches s))
             | SRaise e g' => (XRaise e, mk_mstate g' (latches s))
             end
-  | CAwait d => match await_exit d (g s) with
+  | CAwait d => match await_exit d exc (g s) with
                 | SOk g' => (XReturn false, mk_mstate g' (latches s))   (* returns None *)
                 | SRaise e g' => (XRaise e, mk_mstate g' (latches s))
                 end
@@ -103,22 +103,25 @@ Fixpoint eval (p : prog) (s : mstate) : outcome * mstate :=
       end
   | PWait d body rest =>
       if wait_blocked d (g s) then (ORaise ENotReady, s) else
-      match await_enter d (g s) with
-      | SRaise e g' => (ORaise e, mk_mstate g' (latches s))
-      | SOk g1 =>
-          let (o, s2) := eval body (mk_mstate g1 (latches s)) in
-          let s2' := match o with
-                     | ORaise ENotReady => mk_mstate (wait_record d (g s2)) (latches s2)   (* except NotReadyError: ... ; raise *)
-                     | _ => s2
-                     end in
-          match await_exit d (g s2') with
-          | SRaise e' g3 => (ORaise e', mk_mstate g3 (latches s2'))
-          | SOk g3 => let s3 := mk_mstate g3 (latches s2') in
-                      match o with
-                      | ORaise e => (ORaise e, s3)
-                      | _ => eval rest s3                  (* `return self._wait()`: the call returns, the caller goes on *)
-                      end
-          end
+      let (o1, t) :=                                        (* try: with Awaiting(d): ... *)
+        match await_enter d (g s) with
+        | SRaise e g' => (ORaise e, mk_mstate g' (latches s))
+        | SOk g1 =>
+            let (o, s2) := eval body (mk_mstate g1 (latches s)) in
+            let s2' := match o with
+                       | ORaise ENotReady => mk_mstate (wait_record d (g s2)) (latches s2)   (* except NotReadyError: ... ; raise *)
+                       | _ => s2
+                       end in
+            match await_exit d (match o with ORaise e => Some e | _ => None end) (g s2') with
+            | SRaise e' g3 => (ORaise e', mk_mstate g3 (latches s2'))
+            | SOk g3 => (o, mk_mstate g3 (latches s2'))
+            end
+        end in
+      match o1 with
+      | ORaise EDeferredCycle =>                            (* except DeferredCycle: remember_cycle(self); raise *)
+          (ORaise EDeferredCycle, mk_mstate (remember_cycle d (g t)) (latches t))
+      | ORaise e => (ORaise e, t)
+      | _ => eval rest t                                    (* `return self._wait()`: the call returns, the caller goes on *)
       end
   | PWith c body rest =>
       match enter c s with
